@@ -164,10 +164,12 @@ def out_range(F):
 
 def ofm_zp(F):
     """calibration (DESIGN section 8): the OFM zero point is not applied to 32-bit outputs (raw accumulators handed to a following operation)"""
+    if F.ofm.bits == 32 and F.act_clip == 3 and F.lut_index is not None:
+        return F.ofm.zero_point  # the value indexes a table through the forced int8 range: the zero point positions it in that range
     return 0 if F.ofm.bits == 32 else F.ofm.zero_point
 
 
-MODEL_WIDE_LUT = False  # 32-bit-result and 16-bit-index tables (softmax lowering): modelled but not yet calibrated against the reference kernels
+MODEL_WIDE_LUT = bool(int(__import__('os').environ.get('VV_WIDE_LUT', '0')))  # 32-bit-result and 16-bit-index tables (softmax lowering): modelled but not yet calibrated against the reference kernels
 
 
 def lut_apply(F, acc, vals, mem, acc_name):
